@@ -858,24 +858,26 @@ func c20ReusedExport(doc *document.Document, o c20Opts, decoy string) (got strin
 	if o.nonDefault() == 0 {
 		opts = nil
 	}
-	var a, b string
-	var e0, e1, e2 error
+	// the byte slices ExportToBytes returns are kept by the caller and read only after all exports are done
+	var a, b []byte
+	var e0, e1, e2, e3 error
 	if p := guard(func() {
 		ex := markdown.NewExporter(nil)
-		_, e0 = ex.ExportToString(c20Decoy(decoy), opts)
-		a, e1 = ex.ExportToString(doc, opts)
-		b, e2 = ex.ExportToString(doc, opts)
+		_, e0 = ex.ExportToBytes(c20Decoy(decoy), opts)
+		a, e1 = ex.ExportToBytes(doc, opts)
+		b, e2 = ex.ExportToBytes(doc, opts)
+		_, e3 = ex.ExportToBytes(c20Decoy(decoy), opts)
 	}); p != "" {
 		return p, "panic|" + panicClass(p)
 	}
-	if e0 != nil || e1 != nil || e2 != nil {
-		return fmt.Sprint(e0, e1, e2), "error"
+	if e0 != nil || e1 != nil || e2 != nil || e3 != nil {
+		return fmt.Sprint(e0, e1, e2, e3), "error"
 	}
-	if a != fresh {
-		return a, "first-export-after-decoy"
+	if string(a) != fresh {
+		return string(a), "first-export-after-decoy"
 	}
-	if b != fresh {
-		return b, "second-export-of-the-document"
+	if string(b) != fresh {
+		return string(b), "second-export-of-the-document"
 	}
 	return "", ""
 }
